@@ -291,6 +291,60 @@ fn cli_single(r: &Row, tag: &str, bin: &str, ctx: &mut Ctx, sc: &mut cli::Scratc
     }
 }
 
+/// Explicit calls of the built-ins with the wrong number of arguments (0, 2, 3): only the
+/// method-call spelling can express them (an infix operator always has one argument); every one
+/// must fail the program, whatever the surplus arguments are.
+pub fn arity_sources() -> Vec<String> {
+    let mut out = vec![];
+    let recvs = [Opd::Int(5), Opd::Int(0), Opd::Int(i32::MIN), Opd::Bool(true), Opd::Bool(false), Opd::Null];
+    for a in recvs.iter() {
+        // an argument of the receiver's own kind, so that one argument alone would be fine
+        let b = match a {
+            Opd::Int(_) => ["7", "0"],
+            Opd::Bool(_) => ["true", "false"],
+            _ => ["null", "null"],
+        };
+        for op in ALL_OPS.iter() {
+            for name in [op.to_string(), feeny_name(op).to_string()] {
+                for args in [String::new(), format!("{}, {}", b[0], b[1]), format!("{}, {}", b[1], b[0]), format!("{}, {}, {}", b[0], b[0], b[0])] {
+                    out.push(format!("print(\"~\\n\", {}.{}({}))", a.src(), name, args));
+                }
+            }
+        }
+    }
+    out
+}
+
+/// `src` must fail without printing anything: in this engine and in both binaries.
+fn judge_must_fail(src: &str, ctx: &mut Ctx, tag: &str, sc: Option<&mut cli::Scratch>) -> Judged {
+    ctx.eval();
+    let case = || json!({"must_fail": true, "source": src, "where": format!("in-process engine ({} profile)", tag)});
+    let pipe = match fmlrun::pipeline(src) {
+        Ok(p) => p,
+        Err(e) => return ctx.settle(Violation::new("source-rejected", format!("{:?}", e), case())),
+    };
+    let r = fmlrun::run_stepped(&pipe.loaded, 10_000);
+    if !matches!(r.exec, Exec::Fail(_)) || !r.out.is_empty() {
+        return ctx.settle(Violation::new("wrong-builtin-result", format!("`{}` [{} profile]: expected a failure without output, got {:?} output {:?}", src, tag, r.exec, r.out), case()).with("profile", tag).with("op", "arity"));
+    }
+    if let Some(sc) = sc {
+        let f = sc.file("arity.fml");
+        std::fs::write(&f, src).unwrap();
+        for (btag, bin) in [("debug", cli::fml_debug()), ("release", cli::fml_release())].iter() {
+            let o = cli::run_fml(bin, &["run", f.to_str().unwrap()]).map_err(|e| Violation::new("harness-error", e.to_string(), json!({})))?;
+            if o.status.success() || matches!(o.status, cli::Status::Signal(_)) || !o.stdout.is_empty() {
+                return ctx.settle(
+                    Violation::new("wrong-builtin-result", format!("`{}` [{} binary]: expected a failure without output, got {:?} stdout {:?}", src, btag, o.status, o.out_str()), json!({"must_fail": true, "source": src, "where": format!("{} binary", btag)}))
+                        .with("profile", *btag)
+                        .with("op", "arity"),
+                );
+            }
+        }
+    }
+    ctx.nontrivial(src.as_bytes());
+    Ok(())
+}
+
 fn random_row(t: &mut Tape) -> Row {
     let a = t.i32_edge();
     let b = match t.pick(4) {
@@ -309,7 +363,7 @@ impl Property for C09 {
         "C09"
     }
     fn rule(&self) -> String {
-        "cases: (exhaustive) the 16-value boundary set squared x 11 integer operators, all boolean tables, null ==/!=, every receiver {int,bool,null} x argument {int,bool,null,array,object} x 13 operators; (random) 32-bit operand pairs biased to overflow and sign edges. Each row is `print(\"~\\n\", a op b)` executed in-process in BOTH engine profiles (dev = overflow checks on, release) and, for the tables and a sample of the random rows, through the real debug AND release binaries (non-failing rows batched 100 per program, failing rows one per process). oracle: own specification over i64 (wrap modulo 2^32, truncating division, remainder with the dividend's sign, zero divisor and MIN / -1 fail, ==/!= total on primitives, strict & and |, everything else fails); MIN % -1 may print 0 or fail but must do the same in both builds. non-trivial: exact result outside i32, or a negative operand or zero divisor of / or %, or a cross-kind pair; distinct by (op, a, b) (in-process and CLI observations are counted separately)".into()
+        "cases: (exhaustive) the 16-value boundary set squared x 11 integer operators, all boolean tables, null ==/!=, every receiver {int,bool,null} x argument {int,bool,null,array,object} x 13 operators; every receiver x 13 operators x both spellings called explicitly with 0, 2 and 3 arguments (must fail without output); (random) 32-bit operand pairs biased to overflow and sign edges. Each row is `print(\"~\\n\", a op b)` executed in-process in BOTH engine profiles (dev = overflow checks on, release) and, for the tables and a sample of the random rows, through the real debug AND release binaries (non-failing rows batched 100 per program, failing rows one per process). oracle: own specification over i64 (wrap modulo 2^32, truncating division, remainder with the dividend's sign, zero divisor and MIN / -1 fail, ==/!= total on primitives, strict & and |, everything else fails); MIN % -1 may print 0 or fail but must do the same in both builds. non-trivial: exact result outside i32, or a negative operand or zero divisor of / or %, or a cross-kind pair; distinct by (op, a, b) (in-process and CLI observations are counted separately)".into()
     }
     fn assumptions(&self) -> Vec<String> {
         vec!["MIN % -1 is not listed by the statement: 0 or failure accepted, identical across builds".into()]
@@ -340,6 +394,22 @@ impl Property for C09 {
                 }
             }
         }
+        // wrong argument counts: in both engine profiles, and (release workers) both binaries
+        {
+            let mut sc = if tag == "release" { Some(cli::Scratch::new("C09", "arity")) } else { None };
+            for (i, src) in arity_sources().iter().enumerate() {
+                if !ctx.shard_mine(i) {
+                    continue;
+                }
+                ctx.label(&format!("arity-row:{}", tag));
+                if let Err(v) = judge_must_fail(src, ctx, tag, sc.as_mut()) {
+                    out.push(v);
+                    if out.len() > 8 {
+                        return out;
+                    }
+                }
+            }
+        }
         // the real binaries: driven by the release workers only
         if tag == "release" {
             let mut sc = cli::Scratch::new("C09", "w");
@@ -365,6 +435,11 @@ impl Property for C09 {
         judge_in_process(&row, ctx, tag)
     }
     fn replay(&self, case: &Value, ctx: &mut Ctx) -> Judged {
+        if case["must_fail"].as_bool() == Some(true) {
+            let src = case["source"].as_str().unwrap_or("");
+            let mut sc = cli::Scratch::new("C09", "replay");
+            return judge_must_fail(src, ctx, if cfg!(debug_assertions) { "dev" } else { "release" }, Some(&mut sc));
+        }
         if let Some(src) = case["source"].as_str() {
             // re-judge the row from its source text in this engine and through both binaries
             let row = parse_row(src).ok_or_else(|| Violation::new("harness-error", "cannot parse row", case.clone()))?;
